@@ -2,6 +2,8 @@ import Pyunicorn.Model.Proto
 import Pyunicorn.Model.Similarity
 import Pyunicorn.Model.SimilarityHilbert
 import Pyunicorn.Model.SimilarityScript
+import Pyunicorn.Model.SimilarityNumeric
+import Pyunicorn.Model.SimilarityCoupled
 /-! Line-protocol driver for C09.
 
 Requests (`S`, `damp` row-major rational matrices):
@@ -17,6 +19,13 @@ Requests (`S`, `damp` row-major rational matrices):
   `HilbertClimateNetwork` (`P0` = phase matrix; additional op `X:<d>:<kS>:<kP>` =
   `set_directed(d)` with the coherence / phase matrices the object stores afterwards) →
   states `θ|A|n_links|density|directed`
+* `xhist …` (round 4): the request of `hist` run through the NaN / float32 model `XNet` with
+  `fl = rn24`; matrix entries and `T:` thresholds may be `nan`; reported thresholds may be `nan`
+* `rn24 <x>` → `x` rounded to binary32;  `xadj <N> <W> <θ>` → `thresholdAdjacencyX` (entries / θ may be `nan`)
+* `coupled <N1> <N2> <directed> <S0> <init> <op,…>` → per state (constructor included)
+  `cross_layer_adjacency|adjacency_1|adjacency_2|number_cross_layer_links|cross_link_density|`
+  `number_internal_links|internal_link_density` (the two link-count observables `na` when directed)
+* `ldf <N> <S> <edges> <n>` → `link_density_function(n)` as counts `k₀,k₁,…` over `N²`
 -/
 open Pyunicorn Pyunicorn.Proto Pyunicorn.Similarity
 
@@ -136,8 +145,96 @@ def sanswer (hil : Bool) (N : Nat) (d nl : Bool) (S0 P0 damp : Sim) (init ops : 
 
 end Scripts
 
+/-! ### NaN / float32 model (round 4) -/
+
+def xnum (tok : String) : Option Rat := if tok == "nan" then none else rat? tok
+
+def xMat (s : String) : List (List (Option Rat)) :=
+  (splitTok s ";").map fun row => (splitTok row ",").map xnum
+
+def xmatFn (rows : List (List (Option Rat))) : XSim := fun i j => (rows.getD i []).getD j none
+
+def showX (x : Option Rat) : String := match x with
+  | some r => showRat r
+  | none => "nan"
+
+def showXState (s : XNet) : String :=
+  let d := match s.density with
+    | some r => showRat r
+    | none => "raise:ZeroDivision"
+  s!"{showX s.θ}|{showBools s.A}|{s.nLinks}|{d}"
+
+def parseXOp (N : Nat) (mats : List XSim) (tok : String) : Option XOp :=
+  match tok.splitOn ":" with
+  | ["T", v] => if v == "nan" then some (XOp.thr none) else (rat? v).map fun t => XOp.thr (some t)
+  | ["D", v] => (rat? v).map fun ρ => XOp.dens (ieeeIndex ρ (N * N - N))
+  | ["L", v] => v.toNat?.map fun b => XOp.nl (b != 0)
+  | ["R", v] => v.toNat?.bind fun k => (mats[k]?).map XOp.resim
+  | _ => none
+
+def xtrace (s : XNet) : List XOp → List String
+  | [] => []
+  | o :: os =>
+    match s.step rn24 o with
+    | none => ["raise:IndexError"]
+    | some s' =>
+      if s'.density.isNone then ["raise:ZeroDivision"] else showXState s' :: xtrace s' os
+
+def showOpt (x : Option Rat) : String := match x with
+  | some r => showRat r
+  | none => "raise:ZeroDivision"
+
+def showCoupled (N1 N2 : Nat) (s : Net) : String :=
+  let nc := if s.directed then "na" else toString (numberCrossLayerLinks N1 N2 s)
+  let cd := if s.directed then "na" else showOpt (crossLinkDensityC N1 N2 s)
+  let ni := numberInternalLinksC N1 N2 s
+  let di := internalLinkDensityC N1 N2 s
+  -- the method computes both densities before returning: it raises as soon as one layer has < 2 nodes
+  let dis := match di with
+    | (some a, some b) => s!"{showRat a},{showRat b}"
+    | _ => "raise:ZeroDivision"
+  s!"{showNatMat (crossLayerAdjacency N1 N2 s)}|{showNatMat (adjacency1 N1 s)}|{showNatMat (adjacency2 N1 N2 s)}|{nc}|{cd}|{ni.1},{ni.2}|{dis}"
+
+def ctrace (N1 N2 : Nat) (s : Net) : List Op → List String
+  | [] => []
+  | o :: os =>
+    match s.step o with
+    | none => ["raise:IndexError"]
+    | some s' =>
+      if s'.density.isNone then ["raise:ZeroDivision"] else showCoupled N1 N2 s' :: ctrace N1 N2 s' os
+
 def answer (toks : List String) : String :=
   match toks with
+  | ["coupled", n1, n2, d, s0, init, ops] =>
+    let N1 := n1.toNat!
+    let N2 := n2.toNat!
+    let b := blank (N1 + N2) (d != "0") (matFn (ratMat s0)) (fun _ _ => 1) false
+    match ((splitTok init ",") ++ (splitTok ops ",")).mapM (parseOp (N1 + N2) []) with
+    | none => "bad-request"
+    | some os => join (ctrace N1 N2 b os) ";"
+  | "xhist" :: n :: d :: nl :: s0 :: dm :: init :: ops :: rest =>
+    let N := n.toNat!
+    let mats := match rest with
+      | [m] => (splitTok m "@").map fun t => xmatFn (xMat t)
+      | _ => []
+    let b := xblank rn24 N (d != "0") (xmatFn (xMat s0)) (matFn (ratMat dm)) (nl != "0")
+    match ((splitTok init ",") ++ (splitTok ops ",")).mapM (parseXOp N mats) with
+    | none => "bad-request"
+    | some os => join (xtrace b os) ";"
+  | ["rn24", x] => match rat? x with
+    | some v => showRat (rn24 v)
+    | none => "bad-request"
+  | ["xadj", n, w, t] =>
+    showBools (thresholdAdjacencyX (xmatFn (xMat w)) (xnum t) n.toNat!)
+  | ["ldf", n, s, e, nb] =>
+    let N := n.toNat!
+    -- through the generated script of the method; the answer as counts over `hist.sum()`
+    let hist := histogram (allEntries (matFn (ratMat s)) N) (rats e) nb.toNat!
+    match Pyunicorn.Similarity.Script.ldfRun Pyunicorn.Generated.StructC09.linkDensityFunction
+        (matFn (ratMat s)) N (rats e) nb.toNat! with
+    | none => "raise:script"
+    | some out =>
+      showNats (out.map fun q => (q * ((hist.sum : Nat) : Rat)).floor.toNat) ++ "/" ++ toString hist.sum
   | ["tfld", n, s, r] =>
     let N := n.toNat!
     match (rat? r).bind fun ρ =>
